@@ -125,6 +125,12 @@ func init() {
 			}
 			return nil
 		},
+		"verifParam": func(fr *frame, args []value) value {
+			if v, ok := fr.i.cfg.Params[args[0].(string)]; ok {
+				return int(v)
+			}
+			return args[1]
+		},
 		"verifReach": func(fr *frame, args []value) value {
 			fr.i.reached[args[0].(string)]++
 			return nil
